@@ -53,6 +53,10 @@ pub struct Case {
     pub stack: Stack,
     /// deadline expiry at this probe while hooks fail (None: no deadline)
     pub expire_at: Option<u64>,
+    /// use the same adapter/hook object for three diffs in a row (the real
+    /// one, one over two empty ranges, the real one again)
+    #[serde(default)]
+    pub reuse: bool,
     pub only_k: Option<u64>,
     pub cap: u64,
     pub sample_seed: u64,
@@ -88,6 +92,25 @@ pub fn run_stack(
     fail_at: Option<usize>,
     expire_at: Option<u64>,
 ) -> Result<StackRun, String> {
+    run_stack2(seq, stack, fail_at, expire_at, false)
+}
+
+/// Stacks whose adapter keeps no buffer beyond `finish` and can therefore be
+/// used for several diffs in a row.
+pub fn reusable(stack: Stack) -> bool {
+    matches!(
+        stack,
+        Stack::H | Stack::Hdefault | Stack::RefMutH | Stack::ReplaceH | Stack::ReplaceHdefault | Stack::ReplaceRefMutH
+    )
+}
+
+pub fn run_stack2(
+    seq: &SeqCase,
+    stack: Stack,
+    fail_at: Option<usize>,
+    expire_at: Option<u64>,
+    reuse: bool,
+) -> Result<StackRun, String> {
     let oldc = counted(&seq.old);
     let newc = counted(&seq.new);
     let clock = SimClock::new(match expire_at {
@@ -99,22 +122,38 @@ pub fn run_stack(
     let dl = expire_at.map(|_| instant_at(DL));
     let alg = seq.alg.to();
     let (or, nr) = (seq.or(), seq.nr());
+    // one diff, or the three-diff sequence through the same object
+    macro_rules! go {
+        ($d:expr, $o:expr, $n:expr) => {{
+            let first = diff_deadline(alg, $d, $o, or.clone(), $n, nr.clone(), dl);
+            if !reuse || first.is_err() {
+                first
+            } else {
+                let second = diff_deadline(alg, $d, $o, or.start..or.start, $n, nr.start..nr.start, dl);
+                if second.is_err() {
+                    second
+                } else {
+                    diff_deadline(alg, $d, $o, or.clone(), $n, nr.clone(), dl)
+                }
+            }
+        }};
+    }
     // building the lookups is part of the judged code (IdentifyDistinct)
     let r = guarded(|| with_lookups!(seq, oldc, newc, |o, n| {
         match stack {
             Stack::H => {
                 let mut h = RecHook::<true>::new(fail_at);
-                let r = guarded(|| diff_deadline(alg, &mut h, o, or, n, nr, dl));
+                let r = guarded(|| go!(&mut h, o, n));
                 collect(h, r)
             }
             Stack::Hdefault => {
                 let mut h = RecHook::<false>::new(fail_at);
-                let r = guarded(|| diff_deadline(alg, &mut h, o, or, n, nr, dl));
+                let r = guarded(|| go!(&mut h, o, n));
                 collect(h, r)
             }
             Stack::ReplaceH => {
                 let mut d = Replace::new(RecHook::<true>::new(fail_at));
-                let r = guarded(|| diff_deadline(alg, &mut d, o, or, n, nr, dl));
+                let r = guarded(|| go!(&mut d, o, n));
                 collect(d.into_inner(), r)
             }
             Stack::CompactH => {
@@ -136,7 +175,7 @@ pub fn run_stack(
                 let mut h = RecHook::<true>::new(fail_at);
                 let r = {
                     let mut rm = &mut h;
-                    guarded(|| diff_deadline(alg, &mut rm, o, or, n, nr, dl))
+                    guarded(|| go!(&mut rm, o, n))
                 };
                 collect(h, r)
             }
@@ -144,13 +183,13 @@ pub fn run_stack(
                 let mut h = RecHook::<true>::new(fail_at);
                 let r = {
                     let mut d = Replace::new(&mut h);
-                    guarded(|| diff_deadline(alg, &mut d, o, or, n, nr, dl))
+                    guarded(|| go!(&mut d, o, n))
                 };
                 collect(h, r)
             }
             Stack::ReplaceHdefault => {
                 let mut d = Replace::new(RecHook::<false>::new(fail_at));
-                let r = guarded(|| diff_deadline(alg, &mut d, o, or, n, nr, dl));
+                let r = guarded(|| go!(&mut d, o, n));
                 collect(d.into_inner(), r)
             }
             Stack::ReplaceNoFinishH => {
@@ -213,12 +252,33 @@ impl C08 {
             clause: "c08.panic",
             detail: m,
         };
-        let ok = run_stack(seq, case.stack, None, case.expire_at).map_err(pan)?;
+        // (one clock counts probes across the whole sequence, so the reuse
+        // mode is only meaningful without an expiring deadline)
+        let reuse = case.reuse && reusable(case.stack) && case.expire_at.is_none();
+        let ok = run_stack2(seq, case.stack, None, case.expire_at, reuse).map_err(pan)?;
         out.execs += 1;
         if ok.result.is_err() {
             return fail("c08.success_ok", "diff failed although no hook call failed".into());
         }
         crate::engine::trace(|| format!("{:?} {:?} fault-free: calls reaching the hook = {:?}", case.stack, seq.alg, ok.calls));
+        if reuse {
+            // three diffs through one object: each must be complete on its own
+            let single = run_stack(seq, case.stack, None, case.expire_at).map_err(pan)?;
+            out.execs += 1;
+            let mut expect = single.calls.clone();
+            expect.push(Call::Finish);
+            expect.extend(single.calls.iter().cloned());
+            if ok.calls != expect {
+                return fail(
+                    "c08.reuse",
+                    format!(
+                        "{:?} used for three diffs in a row (real, empty, real): the hook saw {:?}, expected {:?}",
+                        case.stack, ok.calls, expect
+                    ),
+                );
+            }
+            out.count("adapter_reused_for_three_diffs", 1);
+        }
         let nfinish = ok.calls.iter().filter(|c| **c == Call::Finish).count();
         let no_finish = matches!(
             case.stack,
@@ -231,7 +291,7 @@ impl C08 {
                     format!("finish reached the hook {} times through NoFinishHook", nfinish),
                 );
             }
-        } else {
+        } else if !reuse {
             if nfinish != 1 {
                 return fail("c08.finish_once", format!("finish called {} times", nfinish));
             }
@@ -241,6 +301,7 @@ impl C08 {
         }
         // differential clauses against the sibling stack
         match case.stack {
+            _ if reuse => {}
             Stack::NoFinishH | Stack::RefMutH | Stack::Hdefault => {
                 let base = run_stack(seq, Stack::H, None, case.expire_at).map_err(pan)?;
                 out.execs += 1;
@@ -327,7 +388,7 @@ impl C08 {
         out.gauge("max_calls_per_case", t);
         for k in fault_points(t - 1, case.cap, case.sample_seed, case.only_k) {
             let k = k as usize;
-            let run = run_stack(seq, case.stack, Some(k), case.expire_at).map_err(|m| Fail {
+            let run = run_stack2(seq, case.stack, Some(k), case.expire_at, reuse).map_err(|m| Fail {
                 clause: "c08.panic",
                 detail: format!("k={}: {}", k, m),
             })?;
@@ -462,6 +523,7 @@ impl Prop for C08 {
             seq,
             stack,
             expire_at,
+            reuse: rng.chance(1, 4),
             only_k: None,
             cap: match (tier, size) {
                 (_, Size::Large) => 48,
@@ -495,6 +557,12 @@ impl Prop for C08 {
             c.only_k = None;
             out.push(c);
         }
+        if case.reuse {
+            let mut c = case.clone();
+            c.reuse = false;
+            c.only_k = None;
+            out.push(c);
+        }
         for s in shrink_seq(&case.seq) {
             let mut c = case.clone();
             c.seq = s;
@@ -525,6 +593,7 @@ impl Prop for C08 {
             ),
             ("replace_flush_del_ins", agg.hits[27]),
             ("nofinish_forwarded_replace", c("nofinish_forwarded_replace")),
+            ("adapter_reused_for_three_diffs", c("adapter_reused_for_three_diffs")),
         ]
     }
 }
